@@ -198,7 +198,10 @@ Allowed(q, qg) ==
     CASE NP = "radius"   -> {ResultOn(arms, hist, RadiusSet(hist, q))}
       [] NP = "knearest" -> {ResultOn(arms, hist, S) : S \in KSets(hist, q)}
       [] NP = "lsh"      -> {ResultOn(arms, hist, LshSet(hist, qg))}
-      [] NP = "clusters" -> {ResultOn(arms, hist, CellSet(hist, qg))}
+      [] NP = "clusters" -> LET S == CellSet(hist, qg) IN      \* a cluster without rows: the policy trained on nothing
+                            IF S = {} THEN {[nan |-> FALSE, sel |-> <<>>, acc |-> PolicyOn(arms, <<>>).acc,
+                                             expv |-> PolicyOn(arms, <<>>).expv, total |-> 0]}
+                            ELSE {ResultOn(arms, hist, S)}
       [] NP = "tree"     -> {[nan |-> FALSE, tree |-> [a \in RangeS(arms) |-> TreeArmResult(a, qg)]]}
 
 Query(op, q, qg) ==
